@@ -1346,10 +1346,10 @@ def o_graph_global(case, T):
 
 def build(chk: Check) -> None:
     chk.sub("graph_global_src", o_graph_global, strategy=s_graph_global(), n={"quick": 150, "thorough": 6000}, budget_s={"quick": 60, "thorough": 150}, shrink=False)
-    chk.sub("query_geom_same", o_geom_same, strategy=s_geom_same(), n={"quick": 1600, "thorough": 80000}, budget_s={"quick": 60, "thorough": 140})
+    chk.sub("query_geom_same", o_geom_same, cov={"quick": 400, "thorough": 30000}, strategy=s_geom_same(), n={"quick": 1600, "thorough": 80000}, budget_s={"quick": 60, "thorough": 140})
     chk.sub("query_bbox_same", o_bbox_same, strategy=s_bbox_same(), n={"quick": 1000, "thorough": 50000}, budget_s={"quick": 60, "thorough": 110})
     chk.sub("query_other_crs", o_query_other, strategy=s_query_other(), n={"quick": 1400, "thorough": 70000}, budget_s={"quick": 60, "thorough": 140})
-    chk.sub("graph_linear", o_graph_linear, strategy=s_graph_linear(), n={"quick": 800, "thorough": 30000}, budget_s={"quick": 60, "thorough": 140})
+    chk.sub("graph_linear", o_graph_linear, cov={"quick": 300, "thorough": 20000}, strategy=s_graph_linear(), n={"quick": 800, "thorough": 30000}, budget_s={"quick": 60, "thorough": 140})
     chk.sub("graph_rotated", o_graph_rot, strategy=s_graph_rot(), n={"quick": 300, "thorough": 12000}, budget_s={"quick": 60, "thorough": 110})
     chk.sub("graph_other_crs", o_graph_other, strategy=s_graph_other(), n={"quick": 400, "thorough": 18000}, budget_s={"quick": 60, "thorough": 170})
     chk.sub("locate_enum", o_locate, enum=e_locate, exhaustive_tiers=("thorough",), budget_s={"quick": 60, "thorough": 90})
